@@ -1167,6 +1167,11 @@ class RTCSctpTransport(AsyncIOEventEmitter):
         self._sack_duplicates = list(filter(is_obsolete, self._sack_duplicates))
         self._sack_misordered = set(filter(is_obsolete, self._sack_misordered))
 
+        # prune obsolete chunks: only those the peer has abandoned, chunks
+        # received beyond the forwarded TSN still belong to live messages
+        for stream_id, inbound_stream in self._inbound_streams.items():
+            self._advertised_rwnd += inbound_stream.prune_chunks(chunk.cumulative_tsn)
+
         # update reassembly
         for stream_id, stream_seq in chunk.streams:
             inbound_stream = self._get_inbound_stream(stream_id)
@@ -1176,11 +1181,6 @@ class RTCSctpTransport(AsyncIOEventEmitter):
             for message in inbound_stream.pop_messages():
                 self._advertised_rwnd += len(message[2])
                 await self._receive(*message)
-
-        # prune obsolete chunks: only those the peer has abandoned, chunks
-        # received beyond the forwarded TSN still belong to live messages
-        for stream_id, inbound_stream in self._inbound_streams.items():
-            self._advertised_rwnd += inbound_stream.prune_chunks(chunk.cumulative_tsn)
 
     async def _receive_sack_chunk(self, chunk: SackChunk) -> None:
         """
